@@ -77,7 +77,10 @@ func getCacheMaxAge(header http.Header) int {
 	// 如果有设置了 age 字段，则最大缓存时长减少
 	if age := header.Get(headerAge); age != "" {
 		v, _ := strconv.Atoi(age)
-		maxAge -= v
+		// 只有有效的age（大于0）才减少缓存时长，否则负数的age会使无有效max-age的响应变为可缓存
+		if v > 0 {
+			maxAge -= v
+		}
 	}
 
 	return maxAge
